@@ -195,6 +195,27 @@ Proof.
 Qed.
 Print Assumptions C05_by_universe_lists.
 
+(* the "treat TRCL" loop of construct_volume_t4 (which overwrites geometries in place) on a
+   table whose trees hold no CellRef yet (none exists before FILL is developed): every listed
+   cell keeps its fields and its new geometry at p has the value of the old one at the point
+   pulled back through the cell's TRCLs; other cells are untouched; counters stay fresh and the
+   cache stays empty, i.e. the hypotheses of C05_fill_phase_located hold afterwards *)
+Theorem C05_trcl_phase_den :
+  forall (T surf P : Type) (tr_empty : T -> bool) (teqb : T -> T -> bool)
+         (tr_surf : T -> surf -> surf) (inv : T -> P -> P) (sense : surf -> P -> bool),
+  sense_law tr_surf inv sense -> key_law tr_empty teqb inv ->
+  forall fuel keys (s s' : state T surf),
+  fresh_ok T surf s -> s_cache s = [] -> NoDup keys -> all_ref_free T surf s ->
+  trcl_phase T surf tr_empty teqb tr_surf fuel keys s = Ok s' ->
+  fresh_ok T surf s' /\ s_cache s' = [] /\ surf_extends T surf s s' /\ all_ref_free T surf s' /\
+  (forall k cl, In k keys -> dget k (s_cells s) = Some cl ->
+     exists g', dget k (s_cells s') = Some (with_geom cl g') /\
+       forall p b, Den T surf P sense s (act_seq T P tr_empty inv (c_trcl cl) p) (c_geom cl) b ->
+                   Den T surf P sense s' p g' b) /\
+  (forall k, ~ In k keys -> dget k (s_cells s') = dget k (s_cells s)).
+Proof. exact trcl_phase_den. Qed.
+Print Assumptions C05_trcl_phase_den.
+
 (* CellInlining.inline_cells (occurrence counting, scores, threshold, recursive substitution,
    in-place loop over the dictionary) for any threshold: every tree that had a value at a point
    - in particular every cell, through TRef - has the same value there afterwards, and only
